@@ -8,8 +8,9 @@
     covariance), the joint / marginal / conditional transformations must be the Gaussian with those
     moments and its exact Gaussian conditional.  (Needed because inverting a covariance that is a
     sum of exp-atoms leaves the symbolic domain.)  (a) and (b) compose to the property.
-(c) step / rectified-linear moments go through truncated Gaussian integrals: covered only by the
-    C20 machinery (see that module); not claimed here."""
+(c) step / rectified-linear link moments go through truncated Gaussian integrals: decided with the
+    normal cdf as a symbolic atom (gtverif/phi.py, as in C20) for Dx = 1 (both signs of the input weight);
+    Dx >= 2 makes the standard deviation of the link argument a sqrt of a sum: outside the domain."""
 from fractions import Fraction
 import numpy as np
 
@@ -25,7 +26,7 @@ BOUNDS = {
     "thorough": "(a) Dx=2, Dk=2 (covariance of p(x) concrete); (b) Dx=Dy=2 semi-symbolic",
 }
 ASSUMPTIONS = ["(b) replaces get_expected_moments / get_expected_cross_terms on the instance by fresh symbolic moments (stub): the assembly code is verified for arbitrary moments, the moment code separately in (a)",
-               "step and rectified-linear link moments (truncated-Gaussian integrals) are not covered by this check",
+               "step and rectified-linear link moments are covered for Dx = 1 only (cdf abstracted to a field generator with the axioms in gtverif/phi.py)",
                "feature-model bumps: RBF exp(-sum((x_d-s_d)/l_d)^2/2); squared exponential exp(-(w'x - w_0)^2/2) (the library's sign convention for the offset)"]
 
 HET = {"exp": "HeteroscedasticExpConditional", "cosh": "HeteroscedasticCoshM1Conditional",
@@ -174,6 +175,56 @@ def het_moments_case(link, Dx, Dy, Da, Dk, semi=(), timeout=900):
     return Case(cid, PROP, cfg, declare, fn, claims, timeout=timeout)
 
 
+def het_trunc_moments_case(link, wsign, Dy, Da, timeout=900):
+    """(c) step / rectified-linear links, Dx = 1: E[link(h)] through truncated Gaussian integrals, with
+    the normal cdf as a symbolic atom (gtverif/phi.py).  The input weight has a fixed sign (both are run)
+    so that the standard deviation of h = w x + w0 is rational."""
+    Dx, Dk = 1, 1
+    cid = f"C16/moments/het-{link}/Dx1Dy{Dy}Da{Da}Dk1/w{'pos' if wsign > 0 else 'neg'}"
+    cfg = dict(part="(c) moments of step / rectified-linear links via truncated Gaussian integrals", model="heteroscedastic " + link, Dx=1, Dy=Dy, Da=Da, Dk=1, weight_sign=wsign)
+
+    def declare(b):
+        b.free("M", (1, Dy, Dx)); b.free("bv", (1, Dy)); b.free("A", (1, Dy, Da))
+        b.pos("wabs", (Dk, Dx)); b.free("w0", (Dk,))
+        b.derived("W", (Dk, Dx + 1), lambda I, ops: np.array([[I["w0"][0], I["wabs"][0, 0] * ops.c(wsign)]], dtype=object))
+        b.spd("Sx", 1, Dx); b.free("mx", (1, Dx))
+        b.phi_slots(3)
+
+    def fn(**A):
+        from ..phi import patched_norm
+        factor, measure, pdf, conditional = gt()
+        with patched_norm():
+            c = make_het(link, {"M": A["M"], "bv": A["bv"], "A": A["A"], "W": A["W"]})
+            px = pdf.GaussianPDF(Sigma=A["Sx"], mu=A["mx"])
+            mu_y, Sigma_y = c.get_expected_moments(px)
+            return {"mu_y": mu_y, "Sigma_y": Sigma_y, "ESigma": c.integrate_Sigma_x(px)}
+
+    def claims(I, O, ops):
+        M, bb, A_ = I["M"][0], I["bv"][0], I["A"][0]
+        m, S = I["mx"][0], I["Sx"][0]
+        w = I["W"][0, 1]; w0 = I["W"][0, 0]
+        if ops.symbolic:
+            sx = ops.sqrt(S[0, 0])
+            mh = w * m[0] + w0
+            sh = I["wabs"][0, 0] * sx
+            t = mh / sh
+            Phi, phi = ops.ctx.phi.Phi(t), ops.ctx.phi.phi(t)
+        else:
+            import math
+            sx = math.sqrt(S[0, 0]); mh = w * m[0] + w0; sh = abs(w) * sx; t = mh / sh
+            Phi = 0.5 * (1 + math.erf(t / math.sqrt(2))); phi = math.exp(-t * t / 2) / math.sqrt(2 * math.pi)
+        Ed = Phi if link == "step" else mh * Phi + sh * phi
+        ES = spec.mm(A_, A_.T)
+        for i in range(Dy):
+            for j in range(Dy):
+                ES[i, j] = ES[i, j] + A_[i, 0] * Ed * A_[j, 0]
+        cov = ES + spec.mm(spec.mm(M, S), M.T)
+        return [("E[y]", O["mu_y"][0], spec.mv(M, m) + bb), ("Cov[y] = E[Sigma(x)] + M Sigma_x M'", O["Sigma_y"][0], cov),
+                ("integrate_Sigma_x = AA' + A_k E[link(wx+w0)] A_k'", O["ESigma"][0], ES)]
+
+    return Case(cid, PROP, cfg, declare, fn, claims, timeout=timeout)
+
+
 def assembly_case(cls, Dx, Dy, semi=(), timeout=900):
     cid = f"C16/assembly/{cls}/Dx{Dx}Dy{Dy}" + ("/semi-" + "-".join(semi) if semi else "")
     cfg = dict(part="(b) assembly of joint / marginal / conditional from (stubbed, symbolic) matched moments", model=cls, Dx=Dx, Dy=Dy, concrete_blocks=list(semi))
@@ -253,6 +304,10 @@ def cases(tier, seed=0):
         if tier == "thorough":
             out.append(het_moments_case(link, 2, 2, 3, 2, timeout=3000))
             out.append(het_moments_case(link, 3, 2, 2, 2, semi=("Sx",), timeout=3000))
+    for link in ("step", "relu"):
+        for wsign in (1, -1):
+            out.append(het_trunc_moments_case(link, wsign, 1, 1))
+            out.append(het_trunc_moments_case(link, wsign, 2, 2))
     for cls in ("lrbf", "lsem", "exp", "cosh", "step", "relu"):
         for (Dx, Dy) in ((1, 1), (2, 1), (1, 2)):
             out.append(assembly_case(cls, Dx, Dy))
